@@ -3,9 +3,14 @@
 import json, os, re
 print("| seed | change (first line of the sub-agent's note) | caught by | first version missed it? what was strengthened |")
 print("|---|---|---|---|")
-for n in sorted(os.listdir('/verif/seeded')):
+for n in sorted(x for x in os.listdir('/verif/seeded') if not x.startswith('_')):
     m = json.load(open('/verif/seeded/%s/meta.json' % n))
     first = re.sub(r"^Change( [ab])?\s*(\([^)]*\))?:\s*", "", ' '.join(m['needs_to_manifest'].split())).replace('|', '\\|')
     if len(first) > 240:
         first = first[:237] + '...'
     print("| %s | %s | %s | %s |" % (n, first, ', '.join(m['detected_by']) or 'none', (m.get('note') or '-').replace('|', '\\|')))
+obs = '/verif/seeded/_obsolete'
+if os.path.isdir(obs) and os.listdir(obs):
+    print()
+    print("Seeds made obsolete by later fixes (kept under seeded/_obsolete/, not part of the regression run): "
+          + "; ".join("%s - %s" % (n, json.load(open('%s/%s/meta.json' % (obs, n))).get('obsolete', '')) for n in sorted(os.listdir(obs))) + ".")
